@@ -8,6 +8,10 @@
 
 #include "chunk.h"
 
+#ifdef UNCRUSTIFY_VERIF
+#include "verif_hooks.h"
+#endif
+
 #include "ListManager.h"
 #include "prototypes.h"
 #include "space.h"
@@ -387,6 +391,9 @@ void Chunk::MoveAfter(Chunk *ref)
    {
       return;
    }
+#ifdef UNCRUSTIFY_VERIF
+   verif::list_op('M', this, ref);
+#endif
    gChunkList.Remove(this);
    gChunkList.AddAfter(this, ref);
 
@@ -399,6 +406,9 @@ void Chunk::MoveAfter(Chunk *ref)
 
 void Chunk::Swap(Chunk *other)
 {
+#ifdef UNCRUSTIFY_VERIF
+   verif::list_op('S', this, other);
+#endif
    gChunkList.Swap(this, other);
 } // Chunk::Swap
 
@@ -460,6 +470,9 @@ bool Chunk::IsLastChunkOnLine() const
 
 void Chunk::SwapLines(Chunk *other)
 {
+#ifdef UNCRUSTIFY_VERIF
+   verif::list_op('L', this, other);
+#endif
    // to swap lines we need to find the first chunk of the lines
    Chunk *pc1 = GetFirstChunkOnLine();
    Chunk *pc2 = other->GetFirstChunkOnLine();
